@@ -262,6 +262,34 @@ def rule_must_drain(ctx):
     return r
 
 
+def rule_explicit_sync(ctx):
+    r = RuleResult('MUST-explicit-sync', 'the explicit sync() of the public API runs the maintenance step itself on every path (it is what callers use to reach a quiescent '
+                   'state: it is not subject to the housekeeper\'s "somebody else is running it" flag)')
+    prog = ctx.prog
+    R = get_roles(ctx)
+    if not R.maintenance:
+        return r
+    # the explicit `sync()` of the public API runs the maintenance step itself, on every path: it is what callers use to reach a quiescent
+    # state, so it must not be subject to the housekeeper's "somebody else is already running it" flag (then it would return with its own ops
+    # still queued)
+    for ent in sorted(prog.trait_impls.get('sync::ConcurrentCacheExt::sync', [])):
+        try:
+            ps = [p for p in ctx.symex(inline_depth=3, loop_visits=2, inline_pred=lambda n_, bb, d: False if (n_ in R.maintenance or n_ in R.try_sync) else None).run(ent) if not p.diverged]
+        except PathLimit:
+            raise CheckFailure('MUST-explicit-sync: path limit in %s' % ent)
+        for p in ps:
+            runs = any(e[0] == 'call' and (e[1] in R.maintenance or str(e[1]).endswith('InnerSync::sync')) for e in p.events)
+            via_flag = any(e[0] == 'call' and e[1] in R.try_sync for e in p.events)
+            r.instance(function=ent, runs_maintenance_itself=runs, through_try_flag=via_flag)
+            if not runs:
+                r.violate(ent, 'explicit-sync-skippable', 'try_sync' if via_flag else 'none', 'a path of the explicit sync() %s: it can return while another thread\'s run is in progress, with the '
+                          'caller\'s own ops still queued (counters, evictions and releases the caller waits for have not happened)' % (
+                              'goes through the housekeeper\'s try-flag instead of running the maintenance step' if via_flag else 'does not run the maintenance step'),
+                          where=ctx.where(ent), expected='self.base.inner.sync(MAX_SYNC_REPEATS)')
+    r.require_floor(1, 'explicit sync entry points')
+    return r
+
+
 def rule_auth_ts_writers(ctx):
     r = RuleResult('AUTH-ts-writers', 'the last-accessed / last-modified stores are written only on behalf of a use: by insert (new entry / update closure), and by the read-op '
                    'consumer for a received Hit; the write-op consumer, admission, eviction and expiry never write them (unsync: only insert / get paths)')
